@@ -16,6 +16,9 @@ From LCP Require Import Accel.AesNiProofs.
 From LCP Require Import Accel.AesNiKeyProofs.
 From LCP Require Import Crypto.AesCtrProofs.
 From LCP Require Import Crypto.AesTop.
+From LCP Require Import Gen.Repo_aes_sel.
+From LCP Require Import Crypto.AesSelect.
+From LCP Require Import Crypto.AesSelectProofs.
 Import ListNotations.
 Local Open Scope N_scope.
 
@@ -82,3 +85,76 @@ Theorem C03_aesctr_aesni_is_ctr_of_fips197 : forall key k nonce any chunks,
     map (@length N) outs = map (@length N) chunks.
 Proof. exact aesctr_aesni_is_ctr_of_fips197. Qed.
 Print Assumptions C03_aesctr_aesni_is_ctr_of_fips197.
+
+(* ---------------------------------------------------------------- which implementation is selected
+   crypto_aes.c and crypto_aesctr.c each keep their own `hwaccel`.  Their hwaccel_init bodies and the
+   functions testing hwaccel are regenerated from the C text as data (Gen/Repo_aes_sel.v) and
+   interpreted by Crypto/AesSelect.v as functions of
+     cpu      = cpusupport_x86_aesni() != 0
+     selftest = functest(x86_aesni_oneshot) == 0  (the first-use self-test, its allocations included).
+   x_key_is_aesni: crypto_aes_key_expand builds struct crypto_aes_key_aesni objects;
+   x_block_is_aesni: crypto_aes_encrypt_block reads key objects as such; x_can_use: the value of
+   crypto_aes_can_use_intrinsics(); x_bulk_is_aesni .. n: crypto_aesctr_stream hands an n-byte call to
+   crypto_aesctr_aesni_stream.  For all four outcomes the modules agree: everything is AES-NI exactly
+   when cpu && selftest (and n >= 16), so the bulk code never sees an OpenSSL AES_KEY. *)
+Theorem C03_aes_ctr_selection_agree : forall cpu selftest n,
+  exists key_ni bulk_ni,
+    x_key_is_aesni cpu selftest = Ok key_ni /\
+    x_block_is_aesni cpu selftest = Ok key_ni /\
+    x_can_use cpu selftest = Ok (if key_ni then 1 else 0) /\
+    x_bulk_is_aesni cpu selftest n = Ok bulk_ni /\
+    key_ni = (cpu && selftest)%bool /\
+    bulk_ni = ((16 <=? n) && key_ni)%bool.
+Proof. exact aes_ctr_selection_agree. Qed.
+Print Assumptions C03_aes_ctr_selection_agree.
+
+Theorem C03_bulk_only_on_aesni_keys : forall cpu selftest n,
+  x_bulk_is_aesni cpu selftest n = Ok true -> x_key_is_aesni cpu selftest = Ok true.
+Proof. exact bulk_only_on_aesni_keys. Qed.
+Print Assumptions C03_bulk_only_on_aesni_keys.
+
+(* the choice of crypto_aes.c is made once: re-running hwaccel_init with ANY later answers of the CPU
+   predicate and the self-test leaves it unchanged (so a self-test that failed once, e.g. on a refused
+   allocation, is not silently re-taken while key objects of the first kind are alive) *)
+Theorem C03_aes_choice_is_latched : forall cpu selftest cpu' selftest' hw,
+  x_aes_hw cpu selftest = Ok hw ->
+  run_init (validate_body ni_data) (eval_aes cpu' selftest') (aes_init ni_data) (aes_init ni_data) hw = Ok hw.
+Proof. exact aes_choice_is_latched. Qed.
+Print Assumptions C03_aes_choice_is_latched.
+
+(* hence the data path.  x_lib_aesctr cpu selftest ossl key nonce any chunks = crypto_aes_key_expand,
+   crypto_aesctr_init2 on an object with arbitrary content, one crypto_aesctr_stream per chunk, under
+   the selection made for (cpu, selftest); a callee applied to a key object of the other kind is Fault.
+   Partial: OpenSSL is not modelled - what is ASSUMED about it is exactly the hypothesis on ossl
+   (AES_set_encrypt_key + AES_encrypt = FIPS-197 AES for 128-/256-bit keys); an instance of the
+   hypothesis is AesSelectProofs.ossl_hypothesis_instance.  Full statement = the same without that
+   hypothesis, with ossl := OpenSSL's code. *)
+Theorem C03_aesctr_any_selection_is_ctr_of_fips197_partial :
+  forall (ossl : list N -> list N -> list N),
+    (forall key b, (length key = 16 \/ length key = 32)%nat -> ossl key b = AES_encrypt key b) ->
+    forall cpu selftest key nonce any chunks,
+      (length key = 16 \/ length key = 32)%nat ->
+      st_wf any -> N.of_nat (length (concat chunks)) < two64 ->
+      exists s' outs,
+        x_lib_aesctr cpu selftest ossl key nonce any chunks = Ok (s', outs) /\
+        concat outs = ctr_spec (AES_encrypt key) nonce (concat chunks) /\
+        map (@length N) outs = map (@length N) chunks.
+Proof. exact aesctr_any_selection_is_ctr_of_fips197. Qed.
+Print Assumptions C03_aesctr_any_selection_is_ctr_of_fips197_partial.
+
+(* whichever features the build enables (build_data true: CPUSUPPORT_X86_AESNI defined; false: no
+   feature macro) and the running CPU / self-test report, and however the data is cut into calls:
+   the same bytes (same OpenSSL assumption) *)
+Theorem C03_aesctr_any_build_any_selection_same_bytes_partial :
+  forall (ossl : list N -> list N -> list N),
+    (forall key b, (length key = 16 \/ length key = 32)%nat -> ossl key b = AES_encrypt key b) ->
+    forall build1 cpu1 selftest1 build2 cpu2 selftest2 key nonce any1 any2 chunks1 chunks2,
+      (length key = 16 \/ length key = 32)%nat ->
+      st_wf any1 -> st_wf any2 -> concat chunks1 = concat chunks2 ->
+      N.of_nat (length (concat chunks1)) < two64 ->
+      exists s1 outs1 s2 outs2,
+        lib_aesctr (build_data build1) cpu1 selftest1 ossl key nonce any1 chunks1 = Ok (s1, outs1) /\
+        lib_aesctr (build_data build2) cpu2 selftest2 ossl key nonce any2 chunks2 = Ok (s2, outs2) /\
+        concat outs1 = concat outs2.
+Proof. exact aesctr_any_build_any_selection_same_bytes. Qed.
+Print Assumptions C03_aesctr_any_build_any_selection_same_bytes_partial.
